@@ -8,7 +8,7 @@
 (***************************************************************************)
 EXTENDS Layouts, Gen, Json
 
-CONSTANTS MaxDim, MaxRankT, LayA, LayB, LayD, Modes, Kinds
+CONSTANTS MaxDim, MaxRankT, LayA, LayB, LayD, Modes, Kinds, Chain   \* Chain: the result of a matrix product is an operand of a second one
 
 Dims == 1..MaxDim
 VecForms(n) == {<<n>>, <<n, 1>>, <<1, n>>}
@@ -28,8 +28,13 @@ Program(kind, sa, sb, la, lb, ld, axA, axB, mode) ==
         nd == 1 + ra.n + rb.n
         needD == mode \in {"reuse", "incr"}
         rd == IF needD THEN Recipe(ld, p.shape, nd, "") ELSE [ops |-> <<>>, h |-> 0, n |-> 0]   \* the destination has a layout of its own
+        resH == IF needD THEN rd.h ELSE nd            \* the returned tensor: the destination, or a fresh one
+        nextH == nd + rd.n + (IF needD THEN 0 ELSE 1)
+        chain == IF Chain /\ Len(p.shape) = 2 /\ kind \in {"MatMul", "Outer"}
+                 THEN <<Op("New", 0, <<<<p.shape[2]>>, "C", "">>), Op("Product", resH, <<"MatVecMul", nextH, <<>>, <<>>, "safe", 0>>)>>
+                 ELSE <<>>
     IN ra.ops \o rb.ops \o rd.ops
-         \o <<Op("Product", ra.h, <<kind, rb.h, axA, axB, mode, rd.h>>)>>
+         \o <<Op("Product", ra.h, <<kind, rb.h, axA, axB, mode, rd.h>>)>> \o chain
 
 (* shape of the result, needed to build a destination: computed on dummy cells *)
 ResultOK(kind, sa, sb, axA, axB) ==
